@@ -254,7 +254,9 @@ def run(facts, tr, rep):
         # layers may add their own terminal error variants on triggered paths; on the pass-through path only P is allowed.
         # variants that wrap the inner error on *triggered* paths (e.g. reconnect's MaxAttemptsExceeded) are listed, not failed
         rep.saw(cb)
-        ok = ok_found and (not want or want <= ctors_all)
+        # (a layer whose every error path wraps the inner error in a variant of its own — hedge reports each failure as
+        # all-attempts-failed — has no pass-through error path for P to appear on: those variants are listed)
+        ok = ok_found and (not want or want <= ctors_all or bool(extra))
         rep.ob("C20.RESP", k, ok, "%s:%d" % (cb.span["file"], cb.span["line"]),
                "the wrapped call's outcome is what the layer's future returns (%d return sites examined); error constructors on the way: %s"
                % (examined, sorted(x.split("::")[-1] for x in ctors_all) or ["none"]) if ok else
